@@ -44,7 +44,8 @@ fn fwd(op: &Op, _ctx: &dyn Context, operands: &mut dyn CoordinateSet) -> usize {
             let (sin_lon, cos_lon) = (lon - lon_0).sin_cos();
 
             let q = ancillary::qs(lat.sin(), e);
-            let rho = a * (qp + sign * q).sqrt();
+            // (at the pole itself, rounding may leave us with a tiny negative number)
+            let rho = a * (qp + sign * q).max(0.).sqrt();
 
             let easting = x_0 + rho * sin_lon;
             let northing = y_0 + sign * rho * cos_lon;
@@ -60,7 +61,8 @@ fn fwd(op: &Op, _ctx: &dyn Context, operands: &mut dyn CoordinateSet) -> usize {
         let (sin_lon, cos_lon) = (lon - lon_0).sin_cos();
 
         // Authalic latitude, 𝜉
-        let xi = (ancillary::qs(lat.sin(), e) / qp).asin();
+        // (at the poles, rounding may take the ratio slightly beyond +/-1)
+        let xi = (ancillary::qs(lat.sin(), e) / qp).clamp(-1., 1.).asin();
         let (sin_xi, cos_xi) = xi.sin_cos();
 
         let b = if oblique {
@@ -89,6 +91,9 @@ fn inv(op: &Op, _ctx: &dyn Context, operands: &mut dyn CoordinateSet) -> usize {
     let Ok(rq) = op.params.real("rq") else {
         return 0;
     };
+    let Ok(qp) = op.params.real("qp") else {
+        return 0;
+    };
     let Ok(d) = op.params.real("d") else { return 0 };
     let Ok(authalic) = op.params.fourier_coefficients("authalic") else {
         return 0;
@@ -104,8 +109,6 @@ fn inv(op: &Op, _ctx: &dyn Context, operands: &mut dyn CoordinateSet) -> usize {
 
     let ellps = op.params.ellps(0);
     let a = ellps.semimajor_axis();
-    let es = ellps.eccentricity_squared();
-    let e = es.sqrt();
 
     let (sin_xi_0, cos_xi_0) = xi_0.sin_cos();
 
@@ -119,10 +122,17 @@ fn inv(op: &Op, _ctx: &dyn Context, operands: &mut dyn CoordinateSet) -> usize {
             let (x, y) = operands.xy(i);
             let rho = (x - x_0).hypot(y - y_0);
 
-            // The authalic latitude is a bit convoluted
-            let denom = a * a * (1.0 - ((1.0 - es) / (2.0 * e)) * ((1.0 - e) / (1.0 + e)).ln());
-            // ... and (1 - rho^2/denom) is its *sine* (IOGP 2019, p. 79)
-            let xi = (-sign) * (1.0 - rho * rho / denom).asin();
+            // The authalic latitude is a bit convoluted: (1 - rho^2/denom) is its *sine*
+            // (IOGP 2019, p. 79). The bracket in the denominator is qp, which (unlike
+            // the explicit expression) is well defined for a sphere, too.
+            let denom = a * a * qp;
+            let sin_xi = 1.0 - rho * rho / denom;
+            if !(sin_xi.abs() <= 1.0) {
+                debug!("LAEA: ({x}, {y}) outside domain");
+                operands.set_xy(i, f64::NAN, f64::NAN);
+                continue;
+            }
+            let xi = (-sign) * sin_xi.asin();
 
             let lon = lon_0 + (x - x_0).atan2(sign * (y - y_0));
             let lat = ellps.latitude_authalic_to_geographic(xi, &authalic);
